@@ -6,6 +6,7 @@ CONSTANTS
   NegAttempts = 10
   MaxLoss = 4
   MaxNegLoss = 2
+  MaxRestarts = 0
   PeerModes <- ModesAll
   DenyReplies <- DenyMany
   AckTails <- TailsBoth
